@@ -460,4 +460,46 @@ Bad_SemHtlc(S, htx, resp) ==
              \* the k-th signature is for the k-th HTLC output (each second-level transaction spends
              \* its own output index, so even identical HTLCs have distinct transactions)
              \/ \E k \in DOMAIN resp.hs : resp.hs[k].j # k \/ resp.hs[k].typ # HtlcSighashType(S)
+
+---------------------------------------------------------------------------
+(***************************************************************************)
+(* RETRIES.  After commitment C.n was signed with content C (the content    *)
+(* the signer RECORDED for that number), a second request for the same      *)
+(* number carries content C2 through entry point ep ("sem": the semantic    *)
+(* one; "raw": the raw one, given the canonical transaction of C2).         *)
+(* The code at HEAD (simple_validator.rs validate_counterparty_commitment_tx,*)
+(* policy-commitment-retry-same): the policy checks on C2, then the point   *)
+(* and the WHOLE content (balances, both HTLC sets, fee rate) must equal    *)
+(* what was recorded; an identical retry is accepted and signs again what   *)
+(* was signed the first time.                                               *)
+(***************************************************************************)
+ContentKey(C) == <<C.fr, C.to_h, C.to_c, C.off, C.rcv>>
+SameHtlcs(a, b) == SameBag(a, b)
+SameContent(C, C2) == /\ C.n = C2.n /\ C.pt = C2.pt /\ C.fr = C2.fr /\ C.to_h = C2.to_h /\ C.to_c = C2.to_c
+                      /\ SameHtlcs(C.off, C2.off) /\ SameHtlcs(C.rcv, C2.rcv)
+StepRetry(S, C, C2) ==
+  IF S.outbound /\ C2.to_h + C2.to_c + SumHtlc(C2.off) + SumHtlc(C2.rcv) > S.value THEN "panic"
+  ELSE IF PolicyTag(S, C2, NAmt(C2.to_h), NAmt(C2.to_c)) # "ok" THEN "policy"
+  ELSE IF ~SameContent(C, C2) THEN "state"
+  ELSE "ok"
+
+(***************************************************************************)
+(* The property on a retry: whatever a second request for an already signed *)
+(* number returns must be for the transactions of the content RECORDED by   *)
+(* the first accepted request - not for transactions determined by what the *)
+(* caller supplied the second time (a fee rate or an offered HTLC's expiry  *)
+(* is invisible in the commitment transaction but determines the            *)
+(* second-level transactions).                                              *)
+(*   resp = [ok, tag, canon, hs, ...]: canon / hs[k]: the returned          *)
+(*   commitment / k-th HTLC signature verifies against the canonical        *)
+(*   commitment / k-th second-level transaction OF THE RECORDED CONTENT     *)
+(*   (htx); the raw entry point returns no HTLC signatures.                 *)
+(***************************************************************************)
+Bad_RetrySignature(resp) == resp.ok /\ ~resp.canon
+Bad_RetryHtlc(S, htx, ep, resp) ==
+  ep = "sem" /\ resp.ok /\ \/ Len(resp.hs) # Len(htx)
+                           \/ \E k \in DOMAIN resp.hs : resp.hs[k].j # k \/ resp.hs[k].typ # HtlcSighashType(S)
+\* rec: the content the signer holds for the number after a request, read back from its state
+RecordedIs(rec, C) == /\ rec.fr = C.fr /\ rec.to_h = C.to_h /\ rec.to_c = C.to_c
+                      /\ SameHtlcs(rec.off, C.off) /\ SameHtlcs(rec.rcv, C.rcv)
 =============================================================================
